@@ -115,9 +115,9 @@ pub fn family() -> Vec<(Vec<String>, Vec<(String, String)>, Vec<RV>)> {
         partials.push((format!("m{i}"), format!("<m{i} {{{{ k }}}}>")));
     }
     let data = vec![
-        obj(vec![("arr", RV::Arr(vec![RV::Int(1), RV::Int(2), RV::Int(3)])), ("stop", RV::Int(2)), ("n", RV::Int(3)), ("name", st("Tobi")), ("fail", RV::Bool(false)), ("which", st("p")), ("dyn", st("card")), ("big", RV::Int(1200)), ("many", RV::Int(100))]),
-        obj(vec![("arr", RV::Arr(vec![RV::Int(3), RV::Int(3), RV::Int(1)])), ("stop", RV::Int(9)), ("n", RV::Int(5)), ("name", st("Ana")), ("fail", RV::Bool(true)), ("which", st("q")), ("dyn", st("x")), ("big", RV::Int(3)), ("many", RV::Int(70))]),
-        obj(vec![("arr", RV::Arr(vec![])), ("stop", RV::Int(1)), ("n", RV::Int(0)), ("name", st("")), ("fail", RV::Bool(false)), ("which", st("missing")), ("dyn", st("x.liquid")), ("big", RV::Int(0)), ("many", RV::Int(3))]),
+        obj(vec![("arr", RV::Arr(vec![RV::Int(1), RV::Int(2), RV::Int(3)])), ("stop", RV::Int(2)), ("n", RV::Int(3)), ("name", st("Tobi")), ("fail", RV::Bool(false)), ("which", st("p")), ("dyn", st("card")), ("big", RV::Int(1200)), ("many", RV::Int(100)), ("sep", st(","))]),
+        obj(vec![("arr", RV::Arr(vec![RV::Int(3), RV::Int(3), RV::Int(1)])), ("stop", RV::Int(9)), ("n", RV::Int(5)), ("name", st("Ana")), ("fail", RV::Bool(true)), ("which", st("q")), ("dyn", st("x")), ("big", RV::Int(3)), ("many", RV::Int(70)), ("sep", st("-"))]),
+        obj(vec![("arr", RV::Arr(vec![])), ("stop", RV::Int(1)), ("n", RV::Int(0)), ("name", st("")), ("fail", RV::Bool(false)), ("which", st("missing")), ("dyn", st("x.liquid")), ("big", RV::Int(0)), ("many", RV::Int(3)), ("sep", st(""))]),
     ];
     let sets: Vec<Vec<&str>> = vec![
         vec![
@@ -147,6 +147,13 @@ pub fn family() -> Vec<(Vec<String>, Vec<(String, String)>, Vec<RV>)> {
             "{% render dyn, k: n %}|{% render dyn, k: 2 %}",
             "{% for i in (1..big) %}0123456789{% endfor %}|{{ name }}",
             "{% for i in (1..many) %}{% capture nm %}m{{ i }}{% endcapture %}{% include nm k: i %}{% render nm, k: i %}{% endfor %}",
+        ],
+        // chains that start from a literal but whose filter arguments are variables: nothing about
+        // them may be remembered from one evaluation to the next
+        vec![
+            "{% assign all = \"a,b\" | split: \",\" | concat: arr %}{{ all | join: \"-\" }}|{{ \"a,b\" | split: \",\" | concat: arr | size }}",
+            "{{ \"1-2,3-4\" | split: sep | join: \"|\" }}/{{ \"x\" | append: name }}/{{ 5 | plus: n }}/{{ \"a-b\" | replace: sep, name }}",
+            "{% for i in (1..n) %}{{ \"a,b,c,d,e\" | split: \",\" | slice: i, 1 | join: \"\" }}{{ \"q\" | append: i }}{% endfor %}|{{ \"k\" | split: sep | concat: arr | size }}",
         ],
     ];
     sets.into_iter().map(|t| (t.into_iter().map(String::from).collect(), partials.clone(), data.clone())).collect()
